@@ -61,8 +61,13 @@ Str *Deq_Str__erase(Deq_Str *v, Str *pos)
   __CPROVER_assigns(v->n, __CPROVER_object_whole(v->d));
 #endif
 /* fromString<T>: iostream extraction, not modelled (value unspecified, no exception) */
+#ifdef VERIF_MODE_BOUNDED
+static inline int TextTools__fromString_int(const Str *s) { return nondet_int(); }
+static inline double TextTools__fromString_double(const Str *s) { return nondet_double(); }
+#else
 int TextTools__fromString_int(const Str *s) __CPROVER_requires(1) __CPROVER_ensures(1) __CPROVER_assigns();
 double TextTools__fromString_double(const Str *s) __CPROVER_requires(1) __CPROVER_ensures(1) __CPROVER_assigns();
+#endif
 '''
 STUB_CONTRACTS = {'Deq_Str__erase', 'TextTools__isEmpty', 'TextTools__fromString_int', 'TextTools__fromString_double', 'Str__substr', 'Str__op_pluseq_c', 'Str__op_pluseq',
                   'Str__find_first_of_n', 'Str__find_first_not_of_n', 'Str__find_n', 'Str__find_last_of_n', 'Str__make_copy', 'Str__ctor_copy',
@@ -77,10 +82,10 @@ FUNCS = [
          requires=['1'], ensures=["__CPROVER_return_value == (c == 10 || c == 13)"], assigns=[]),
     dict(cname='TextTools__isDecimalNumber', qname='bpp::TextTools::isDecimalNumber', sig='bool (const std::string &, char, char)',
          requires=['STR_OBJ(s)'], ensures=['verif_exc == 0'], assigns=[],
-         loops={1: dict(assigns='i, sepCount, sciCount', invariant=['i <= s->n', 'sepCount <= 1', 'sciCount <= 1'], decreases='s->n - i')}),
+         loops={1: dict(assigns='i, sepCount, sciCount, digitCount', invariant=['i <= s->n', 'sepCount <= 1', 'sciCount <= 1'], decreases='s->n - i')}),
     dict(cname='TextTools__isDecimalInteger', qname='bpp::TextTools::isDecimalInteger',
          requires=['STR_OBJ(s)'], ensures=['verif_exc == 0'], assigns=[],
-         loops={1: dict(assigns='i, sciCount', invariant=['i <= s->n', 'sciCount <= 1'], decreases='s->n - i')}),
+         loops={1: dict(assigns='i, sciCount, digitCount', invariant=['i <= s->n', 'sciCount <= 1'], decreases='s->n - i')}),
     dict(cname='TextTools__toInt', qname='bpp::TextTools::toInt',
          requires=['STR_OBJ(s)'], ensures=['verif_exc == 0 || verif_exc == EXC_Exception'], assigns=['verif_exc']),
     dict(cname='TextTools__toDouble', qname='bpp::TextTools::toDouble',
